@@ -123,11 +123,21 @@ pub fn gen(rng: &mut Rng, tiny: bool, focus: &str) -> ACfg {
             runtime_reg.push((p, k, rng.below(3) as u8));
         }
     }
-    let mid_phase = if policy != POL_BLOCK || std::env::var("RSV_NOMID").is_ok() { 0 } else if n_red >= 2 && rng.chance(1, if tiny { 3 } else { 6 }) { 1 } else if n_sub >= 2 && n_red >= 1 && rng.chance(1, if tiny { 2 } else { 5 }) { 2 } else { 0 };
+    let mid_phase = if policy != POL_BLOCK || std::env::var("RSV_NOMID").is_ok() { 0 } else if n_red >= 2 && rng.chance(1, if tiny { 3 } else { 6 }) { 1 } else if n_sub >= 2 && n_red >= 1 && rng.chance(1, if tiny { 2 } else { 5 }) { 2 } else if n_mw >= 1 && n_red >= 1 && rng.chance(1, if tiny { 2 } else { 5 }) { 3 } else { 0 };
     if mid_phase == 1 {
         // script: plain but parks reducer 0 at gate 0; used by the very first action of producer 1
         let mut sc = Script::plain();
         sc.rgate = 0;
+        scripts.push(sc);
+        let idx = scripts.len() as u32 - 1;
+        producers[0][0].0.script = idx;
+    }
+    if mid_phase == 3 {
+        // middleware 0 parks inside before_effect of the first action
+        let mut sc = Script::plain();
+        sc.rgate = 0;
+        sc.mgate_idx = 0;
+        sc.mgate_hook = 1;
         scripts.push(sc);
         let idx = scripts.len() as u32 - 1;
         producers[0][0].0.script = idx;
@@ -175,7 +185,7 @@ pub fn describe(c: &ACfg) -> J {
         ("runtime_registrations", J::A(c.runtime_reg.iter().map(|(p, k, kind)| J::s(format!("producer {} before action {}: {}", p + 1, k + 1, ["add_reducer", "add_middleware", "add_subscriber"][*kind as usize]))).collect())),
         ("perturb", J::U(c.perturb as u64)),
         ("read_in_callbacks", J::B(c.read_in_cb)),
-        ("mid_phase_variant", J::s(["none", "registrations while reducer 0 is parked inside a chain", "unsubscribe + subscribe while the first subscriber is parked inside a notification"][c.mid_phase as usize])),
+        ("mid_phase_variant", J::s(["none", "registrations while reducer 0 is parked inside a chain", "unsubscribe + subscribe while the first subscriber is parked inside a notification", "add_middleware while middleware 0 is parked inside before_effect"][c.mid_phase as usize])),
     ])
 }
 
@@ -270,7 +280,20 @@ pub fn execute(c: &ACfg, seed: u64) -> (W, bool) {
                     w.ctx.gates[0].open();
                     return;
                 }
-                if c.mid_phase == 1 {
+                if c.mid_phase == 3 {
+                    // the middleware list is locked while a hook phase runs: these calls wait for it
+                    std::thread::scope(|s2| {
+                        s2.spawn(|| {
+                            for _ in 0..50 {
+                                std::thread::yield_now();
+                            }
+                            w.ctx.gates[0].open();
+                        });
+                        for _ in 0..3 {
+                            w.add_middleware(0);
+                        }
+                    });
+                } else if c.mid_phase == 1 {
                     // in the unmodified code these calls wait for the chain to finish (the lists are
                     // locked while they are walked); open the gate from another thread shortly after
                     std::thread::scope(|s2| {
